@@ -93,7 +93,8 @@ def _gen_fn_spec(rng):
     nst = int(rng.integers(2, 6))
     feats = set()
     for si in range(nst):
-        kind = rng.choice(["let", "logpdf", "sample", "sample", "sample_shape", "ragged", "scan", "inner"], p=[0.12, 0.18, 0.2, 0.12, 0.1, 0.12, 0.08, 0.08])
+        kind = rng.choice(["let", "logpdf", "sample", "sample", "sample_shape", "ragged", "scan", "inner", "dscan", "cond", "loop"],
+                          p=[0.10, 0.15, 0.17, 0.10, 0.09, 0.10, 0.08, 0.06, 0.05, 0.05, 0.05])
         var = f"s{si}"
         if kind == "let":
             nm = pick()
@@ -157,10 +158,41 @@ def _gen_fn_spec(rng):
             if nm is None or c0 is None:
                 continue
             tag[0] += 1
-            body.append({"k": "scan", "var": var, "xs": nm, "init": c0, "tag": tag[0], "dist": "p_normal"})
+            rev = bool(rng.random() < 0.5)
+            body.append({"k": "scan", "var": var, "xs": nm, "init": c0, "tag": tag[0], "dist": "p_normal", "reverse": rev})
             vars_[var] = vars_[nm]
             feats.add("scan")
             feats.add("sample")
+            if rev:
+                feats.add("reverse")
+        elif kind == "dscan":
+            # deterministic, direction-sensitive scan (carry-dependent step)
+            nm = pick(lambda s: len(s) == 1)
+            c0 = pick(lambda s: s == ())
+            if nm is None or c0 is None or nm in boolvars or c0 in boolvars:
+                continue
+            rev = bool(rng.random() < 0.6)
+            body.append({"k": "dscan", "var": var, "xs": nm, "init": c0, "reverse": rev})
+            vars_[var] = vars_[nm]
+            feats.add("dscan")
+            if rev:
+                feats.add("reverse")
+        elif kind == "cond":
+            pr = pick(lambda s: s == ())
+            nm = pick()
+            if pr is None or nm is None or pr in boolvars or nm in boolvars:
+                continue
+            body.append({"k": "cond", "var": var, "pred": pr, "x": nm, "switch": bool(rng.random() < 0.4)})
+            vars_[var] = vars_[nm]
+            feats.add("cond")
+        elif kind == "loop":
+            pr = pick(lambda s: s == ())
+            nm = pick()
+            if pr is None or nm is None or pr in boolvars or nm in boolvars:
+                continue
+            body.append({"k": "loop", "var": var, "bound": pr, "x": nm, "while": bool(rng.random() < 0.5)})
+            vars_[var] = vars_[nm]
+            feats.add("loop")
         elif kind == "inner":
             nm = pick(lambda s: len(s) == 1)
             if nm is None:
@@ -215,7 +247,13 @@ def _show_fn(spec, axes, form, axis_size):
         elif k == "sample":
             lines.append(f"  {st['var']} = {st['dist']}.sample({_sx(st['args'])}, sample_shape={st['sample_shape']})")
         elif k == "scan":
-            lines.append(f"  {st['var']} = scan over {st['xs']}: c, x -> p_normal.sample(c*0.5 + x, 0.7) (init {st['init']})")
+            lines.append(f"  {st['var']} = scan over {st['xs']}: c, x -> p_normal.sample(c*0.5 + x, 0.7) (init {st['init']}, reverse={st.get('reverse', False)})")
+        elif k == "dscan":
+            lines.append(f"  {st['var']} = lax.scan(c, x -> (c*0.5 + x, c*0.5 - 2x), init {st['init']}, xs {st['xs']}, reverse={st['reverse']})[1]")
+        elif k == "cond":
+            lines.append(f"  {st['var']} = " + ("lax.switch(clip(floor(|p|*2),0,2), [2x+1, -x, x*x], x)" if st["switch"] else "lax.cond(p > 0, 2x+1, -x, x)") + f"  p={st['pred']} x={st['x']}")
+        elif k == "loop":
+            lines.append(f"  {st['var']} = " + ("while_loop(i < clip(floor(|b|*3),0,4): c -> c*0.5 + i)" if st["while"] else "fori_loop(0, 3, c -> c*0.5 + i)") + f"  b={st['bound']} x={st['x']}")
         elif k == "inner":
             lines.append(f"  {st['var']} = modular_vmap(lambda x: p_normal.sample(x, 0.5))({st['xs']})")
     return "\n".join(lines)
@@ -260,8 +298,30 @@ def _build_fn(spec):
                     v = _d.sample(c * 0.5 + x, 0.7)
                     return v, v
 
-                _, ys = jax.lax.scan(step, env[st["init"]], env[st["xs"]])
+                _, ys = jax.lax.scan(step, env[st["init"]], env[st["xs"]], reverse=bool(st.get("reverse", False)))
                 env[st["var"]] = ys
+            elif k == "dscan":
+
+                def dstep(c, x):
+                    return c * 0.5 + x, c * 0.5 - 2.0 * x
+
+                _, ys = jax.lax.scan(dstep, env[st["init"]], env[st["xs"]], reverse=st["reverse"])
+                env[st["var"]] = ys
+            elif k == "cond":
+                pv, xv = env[st["pred"]], env[st["x"]]
+                if st["switch"]:
+                    ix = jnp.clip(jnp.floor(jnp.abs(pv) * 2.0), 0, 2).astype(jnp.int32)
+                    env[st["var"]] = jax.lax.switch(ix, [lambda x: 2.0 * x + 1.0, lambda x: -x, lambda x: x * x], xv)
+                else:
+                    env[st["var"]] = jax.lax.cond(pv > 0, lambda x: 2.0 * x + 1.0, lambda x: -x, xv)
+            elif k == "loop":
+                bv, xv = env[st["bound"]], env[st["x"]]
+                if st["while"]:
+                    nb = jnp.clip(jnp.floor(jnp.abs(bv) * 3.0), 0, 4).astype(jnp.int32)
+                    _, out = jax.lax.while_loop(lambda c: c[0] < nb, lambda c: (c[0] + 1, c[1] * 0.5 + c[0]), (jnp.int32(0), xv))
+                    env[st["var"]] = out
+                else:
+                    env[st["var"]] = jax.lax.fori_loop(0, 3, lambda i, c: c * 0.5 + i, xv)
             elif k == "inner":
                 d = dists[id(st)]
                 env[st["var"]] = modular_vmap(lambda x, _d=d: _d.sample(x, 0.5))(env[st["xs"]])
@@ -338,7 +398,7 @@ def _run_fn(case, ctx):
     ctx.count("fn_cases")
     feats = spec["feats"]
     if hasattr(mv, "brief"):
-        key = "modular_vmap|" + ("+".join(f for f in feats if f in ("ragged", "sample_shape", "inner_vmap", "scan")) or "plain")
+        key = "modular_vmap|" + ("+".join(f for f in feats if f in ("ragged", "sample_shape", "inner_vmap", "scan", "dscan", "cond", "loop", "reverse")) or "plain")
         ctx.violation(f"{key}|raises:{mv.type}", {**d0, **mv.brief()})
         return
     events = list(probes.HOST.events)
@@ -403,18 +463,48 @@ def _run_fn(case, ctx):
                             )
                             return
                 env[var] = np.asarray(lane_val, dtype=np.float64)
+            elif k in ("dscan", "cond", "loop"):
+                if k == "dscan":
+                    xs_ = np.asarray(env[st["xs"]], dtype=np.float64)
+                    c = float(env[st["init"]])
+                    want = np.zeros_like(xs_)
+                    order = range(len(xs_) - 1, -1, -1) if st["reverse"] else range(len(xs_))
+                    for j in order:
+                        want[j] = c * 0.5 - 2.0 * xs_[j]
+                        c = c * 0.5 + xs_[j]
+                elif k == "cond":
+                    pv = float(np.float32(env[st["pred"]]))
+                    xv = np.asarray(env[st["x"]], dtype=np.float64)
+                    if st["switch"]:
+                        ix = int(np.clip(np.floor(np.float32(abs(pv)) * np.float32(2.0)), 0, 2))
+                        want = [2.0 * xv + 1.0, -xv, xv * xv][ix]
+                    else:
+                        want = 2.0 * xv + 1.0 if pv > 0 else -xv
+                else:
+                    bv = float(np.float32(env[st["bound"]]))
+                    want = np.asarray(env[st["x"]], dtype=np.float64)
+                    nb = int(np.clip(np.floor(np.float32(abs(bv)) * np.float32(3.0)), 0, 4)) if st["while"] else 3
+                    for j in range(nb):
+                        want = want * 0.5 + j
+                ctx.count("lane_output_checks")
+                ctx.count(f"lane_{k}_checks")
+                if lane_val.shape != np.shape(want) or not R.close(lane_val, want, rel=3e-5):
+                    ctx.violation(f"modular_vmap|{k}" + ("-reverse" if st.get("reverse") else "") + "|deterministic-output-differs",
+                                  {**d, "got": lane_val.tolist(), "reference": np.asarray(want).tolist()})
+                    return
+                env[var] = np.asarray(want)
             elif k in ("scan", "inner"):
                 xs = env[st["xs"]]
                 if lane_val.shape != xs.shape:
                     ctx.violation(f"modular_vmap|{k}-output-shape-differs", {**d, "got_shape": list(lane_val.shape)})
                     return
                 c = float(env[st["init"]]) if k == "scan" else None
-                for j in range(len(xs)):
+                for j in (range(len(xs) - 1, -1, -1) if st.get("reverse") else range(len(xs))):
                     want_p = (c * 0.5 + float(xs[j]), 0.7) if k == "scan" else (float(xs[j]), 0.5)
                     ok = _claim_event(by_tag.get(st["tag"], []), used.get(st["tag"], []), lane_val[j], want_p)
                     ctx.count("site_lane_matches")
                     if not ok:
-                        ctx.violation(f"modular_vmap|{k}|site-did-not-see-its-lanes-parameters", {**d, "step": j, "reference_params": list(want_p)})
+                        ctx.violation(f"modular_vmap|{k}" + ("-reverse" if st.get("reverse") else "") + "|site-did-not-see-its-lanes-parameters", {**d, "step": j, "reference_params": list(want_p)})
                         return
                     c = float(lane_val[j])
                 env[var] = np.asarray(lane_val, dtype=np.float64)
